@@ -85,6 +85,10 @@ pub enum POp {
     /// client sends DISCONNECT (v5: either side)
     Disconnect { side: Side },
     Quiesce,
+    /// simulated time passes (no timer deadline is skipped: see `live_run`)
+    At { ms: u64 },
+    /// bounded liveness: both ends are still connected and nobody asked to close
+    ExpectAlive,
 }
 
 #[derive(Clone, Debug)]
@@ -728,6 +732,22 @@ impl Pair {
                 self.fault("disconnect_sent");
             }
             POp::Quiesce => self.quiesce(),
+            POp::At { ms } => {
+                if *ms > self.now_ms {
+                    self.now_ms = *ms;
+                }
+            }
+            POp::ExpectAlive => {
+                for side in [Side::C, Side::S] {
+                    let e = &self.ends[side.ix()];
+                    if e.w.want_close || e.told_closed || e.w.m.st != St::Connected {
+                        let m = format!("{:?} is no longer connected after an idle period although keep-alive traffic flowed in time (status {:?}, close requested {})", side, e.w.m.st, e.w.want_close);
+                        self.viol = Some(Violation { props: vec!["C15", "C01"], class: format!("keepalive-liveness/{:?}", side), msg: m, step: self.steps as usize });
+                        return;
+                    }
+                }
+                self.stats.hit("c15_keepalive_liveness_held");
+            }
         }
     }
 
@@ -1125,5 +1145,85 @@ pub fn pop_kind(o: &POp) -> u8 {
         POp::Closed { side } => 90 + side.ix() as u8,
         POp::Disconnect { side } => 92 + side.ix() as u8,
         POp::Quiesce => 99,
+        POp::At { .. } => 100,
+        POp::ExpectAlive => 101,
     }
+}
+
+
+/// Time-faithful keep-alive run (C15, bounded liveness): no faults, latency below half the
+/// keep-alive, events strictly in simulated-time order for ten keep-alive periods: nobody may
+/// be timed out. Returns the executed op list (replayable).
+pub fn live_run(p: &mut Pair, r: &mut Rng) -> Vec<POp> {
+    let mut ops: Vec<POp> = vec![];
+    let mut run = |p: &mut Pair, ops: &mut Vec<POp>, op: POp| {
+        ops.push(op.clone());
+        p.exec(&op);
+    };
+    let ka_ms = p.cfg.ka as u64 * 1000;
+    let eff_ms = p.cfg.s_ska.map(|s| s as u64 * 1000).unwrap_or(ka_ms);
+    let period = if eff_ms > 0 { eff_ms } else { 1000 };
+    let latency = r.range(1, (period / 2).saturating_sub(1).max(1));
+    // handshake
+    run(p, &mut ops, POp::Connect);
+    run(p, &mut ops, POp::Deliver { to: Side::S, n: 0 });
+    run(p, &mut ops, POp::Act { side: Side::S, nth: 0 });
+    run(p, &mut ops, POp::Deliver { to: Side::C, n: 0 });
+    let horizon = p.now_ms + 10 * period;
+    let mut arrive: [Option<u64>; 2] = [None, None];
+    let mut guard = 0;
+    while !p.failed() && guard < 400 {
+        guard += 1;
+        for i in 0..2 {
+            if p.pipe[i].is_empty() {
+                arrive[i] = None;
+            } else if arrive[i].is_none() {
+                arrive[i] = Some(p.now_ms + latency);
+            }
+        }
+        // obligations are discharged at once (the applications are not stalled)
+        let mut acted = false;
+        for side in [Side::S, Side::C] {
+            if !p.ends[side.ix()].inbox.is_empty() {
+                run(p, &mut ops, POp::Act { side, nth: 0 });
+                acted = true;
+                break;
+            }
+        }
+        if acted {
+            continue;
+        }
+        // earliest event: an arrival or a timer deadline
+        let mut best: Option<(u64, u8, POp)> = None;
+        for (i, side) in [(0usize, Side::C), (1, Side::S)] {
+            if let Some(t) = arrive[i] {
+                if best.as_ref().map_or(true, |b| (t, 0) < (b.0, b.1)) {
+                    best = Some((t, 0, POp::Deliver { to: side, n: 0 }));
+                }
+            }
+            for k in Tk::ALL {
+                if let Some(d) = p.ends[i].deadline[k.ix()] {
+                    if best.as_ref().map_or(true, |b| (d, 1) < (b.0, b.1)) {
+                        best = Some((d, 1, POp::Timer { side, k }));
+                    }
+                }
+            }
+        }
+        // some application traffic now and then
+        let Some((t, _, op)) = best else { break };
+        if t > horizon {
+            break;
+        }
+        if r.chance(1, 6) && p.now_ms + 1 < t {
+            let side = if r.chance(1, 2) { Side::C } else { Side::S };
+            let at = r.range(p.now_ms + 1, t);
+            run(p, &mut ops, POp::At { ms: at });
+            run(p, &mut ops, POp::Pub { side, qos: *r.pick(&[0u8, 1]), topic: 0, alias: 0, pad: 0, fail: false });
+            continue;
+        }
+        run(p, &mut ops, POp::At { ms: t });
+        run(p, &mut ops, op);
+    }
+    run(p, &mut ops, POp::ExpectAlive);
+    ops
 }
